@@ -1,0 +1,7 @@
+//go:build !verif
+
+package xixi_kv
+
+func verifFsEvent(kind string, a string, b string) {}
+
+func verifSched(label string) {}
